@@ -478,4 +478,3 @@ func (it *stringIter) next() tuple {
 	it.i += n
 	return okv
 }
-
